@@ -8,7 +8,7 @@ from common import Report, log
 MANIFEST = dict(
     technique='Coq proofs that function-by-function Gallina models of the expression parser and of the statement parser map every rendering of every reference expression / reference statement (all parenthesisation choices) to the prescribed tree + model-vs-code correspondence for parseExpression and parseStatement on rendered, corrupted and unsupported token lists + prescribed-tree oracle (generator knows the tree) on the whole statement surface',
     text='Spec/RefGrammar.v defines the reference expressions (OR < AND < NOT < comparison/IS NULL/IN/BETWEEN/LIKE < || < + - < * / % < :: < primary; function calls, CASE, CAST, tuples), their token renderings for every choice of redundant parentheses, and Model/Expr.v the prescribed tree ast_of; Spec/RefStmt.v the reference statements (SELECT with DISTINCT [ON], aliases, FROM lists, all joins with ON/USING, WHERE, GROUP BY with ROLLUP/CUBE/GROUPING SETS, HAVING, ORDER BY with direction and NULLS, LIMIT, OFFSET, FETCH, the locking clause FOR UPDATE | NO KEY UPDATE | SHARE | KEY SHARE [OF ...] [NOWAIT | SKIP LOCKED]; set operations; WITH [RECURSIVE] with column lists and [NOT] MATERIALIZED; INSERT with VALUES rows or a query, ON CONFLICT and RETURNING; UPDATE; DELETE; MERGE with every documented WHEN kind x action pair), their renderings and ast_of_stmt. Model/ExprParse.v mirrors expressions.go and Model/StmtParse.v mirrors parseStatement / select.go (incl. parseForClause) / cte.go / grouping.go / the cores of dml.go (incl. parseMergeStatement) function by function (cursor, depth counter, quirks, defect switches). Theorem C03_parse_render_expr_ext: for EVERY reference expression, every parenthesisation, every admissible follow token list, every depth limit and every nesting within it the model parser returns exactly (ast_of e, rest) - precedence, left associativity, parenthesis override, everything written appears, nothing else appears, never rejected, in one statement, by induction with one lemma per production. Theorems C03_parse_render_select_partial and C03_parse_render_stmt_partial: the same equation for parseStatement on every reference SELECT / every reference statement, every parenthesisation of every expression in it, by one lemma per clause composed along the token list (partial: the clauses outside Spec/RefStmt.v are listed in Props/C03.v). Refuted-witness theorems for the defect switches (two repaired in /repo, one - an alias without AS after a bare column - pinned by the project tests and kept as known finding). The models are tied to the code on every run: the real parseExpression / parseStatement (hooks) and the models are run on the same token lists (rendered, corrupted, unsupported) and must agree on accept/reject, consumed tokens and whole tree; Spec renderings and prescribed trees are cross-checked against the generator and the real tokenizer. Independently, the real parser output for generated statements of the whole documented surface (queries, DML, MERGE, DDL) is compared field by field with the tree the generator prescribes.',
-    note=common.BASE_NOTE + "Lexing is C04's theorem: C03 checks per run that the real tokenizer+converter produce the token list the renderer states. MERGE, GROUPING SETS and the FOR clause are in the reference grammar of Spec/RefStmt.v, in the model correspondence (targeted reference families: the WHEN kind x action table and its ordered pairs, set shapes, 36 lock x OF x wait combinations) and in the statement theorem; clauses outside the reference grammar (derived tables, LATERAL, sub-query expressions, window functions, DDL) are covered by the prescribed-tree oracle and, where modelled, the correspondence only; ASCII-only case folding in the model; models.TokenType numbers of statement keywords are written in Spec/RefStmt.v (drift shows as a correspondence disagreement).",
+    note=common.BASE_NOTE + "Lexing is C04's theorem: C03 checks per run that the real tokenizer+converter produce the token list the renderer states. MERGE, GROUPING SETS and the FOR clause are in the reference grammar of Spec/RefStmt.v, in the model correspondence (targeted reference families: the WHEN kind x action table and its ordered pairs, set shapes, 36 lock x OF x wait combinations) and in the statement theorem; clauses outside the reference grammar (derived tables, LATERAL, sub-query expressions, window functions, DDL) are covered by the prescribed-tree oracle and, where modelled (OVER ( window specification ) with both frame forms is), the correspondence only; known findings: implicit-alias-bare-column, setop-trailing-order-by, derived-table-set-operation; ASCII-only case folding in the model; models.TokenType numbers of statement keywords are written in Spec/RefStmt.v (drift shows as a correspondence disagreement).",
     design='6/C03')
 
 DF_NONE = "(DFlags false false)"
